@@ -14,8 +14,11 @@ CONSTANTS
   Quantum = 4
   MaxTime = 20
   Rule = "sum"
+  Cfgs = {"A"}
+  InitCfg = "A"
+  RL = "safe"
   Off = {"stopsnap"}
   Lim <- QStop
 VIEW View
-INVARIANTS AtLeastOnce NoDuplicateWhenHealthy SilenceSurvivesRestart NoRepeatAfterRestart ReadyEventually Sane
+INVARIANTS AtLeastOnce NoDuplicateWhenHealthy SilenceSurvivesRestart NoRepeatAfterRestart ReadyEventually RoutedByConfigInForce StatusShowsConfigInForce ReceiversAgree Sane
 CHECK_DEADLOCK FALSE
